@@ -378,10 +378,14 @@ def aligned_angle_ref_rule1(decay_group, decay_chain_struct, decay_data, data):
     return set_x, ref_matrix_final
 
 
-def aligned_angle_ref_rule2(decay_group, decay_chain_struct, decay_data, data):
+def aligned_angle_ref_rule2(
+    decay_group, decay_chain_struct, decay_data, data, base_z=None
+):
     # calculate aligned angle of final particles in each decay chain
     set_x = {}  # reference particles
     ref_matrix = {}
+    if base_z is None:
+        base_z = np.array([[0.0, 0, 1]])
 
     ref_matrix_final = {}
     for i in decay_group.outs:
@@ -389,9 +393,14 @@ def aligned_angle_ref_rule2(decay_group, decay_chain_struct, decay_data, data):
             None,
             {"x": np.array([[1.0, 0, 0]]), "z": np.array([[0.0, 0, 1]])},
         )
-        p = data[i]["p"]
+        # momentum in the rest frame of the top particle (the chains' boost
+        # and rotation matrices start there)
+        p = LorentzVector.rest_vector(
+            data[decay_group.top]["p"], data[i]["p"]
+        )
+        # same base axes as the helicity angles of the top decay
         ang, _ = EulerAngle.angle_zx_z_getx(
-            np.array([[0.0, 0, 1]]),
+            base_z,
             np.array([[1.0, 0, 0]]),
             LorentzVector.vect(p),
         )
@@ -442,7 +451,7 @@ def cal_angle_from_particle(
         decay_data[i] = data_i
     if align_ref == "center_mass":
         set_x, ref_matrix_final = aligned_angle_ref_rule2(
-            decay_group, decay_chain_struct, decay_data, data
+            decay_group, decay_chain_struct, decay_data, data, base_z=base_z
         )
     else:
         set_x, ref_matrix_final = aligned_angle_ref_rule1(
